@@ -38,10 +38,10 @@ ENTRY = dict(
                "witness schedules, fact-selected dichotomy) + exhaustive differential against the real engine with "
                "enforced witness replay through verifhook schedule points"),
     lean_modules=["Bpmn.Props.C06", "Bpmn.Props.C06Current"],
-    families=["c06", "c06loop", "c06term"],
+    families=["c06", "c06loop", "c06term", "c06burst"],
     exhaustive=True,
     multi_seed=False,
-    rule=("c06term: a gateway with 2..3 alternatives one of which is TERMINAL (its catch event has no outgoing sequence flow), every first event x every second event (or none): exactly one determination, exactly the task of the winner (none for the terminal alternative), the instance completes; c06loop: the gateway RE-ENTERED through a loop (start -> merge -> G -> C0 -> T0 -> back to the merge; G -> C1 -> T1 -> end; "
+    rule=("c06burst: the decisive competing event at the end of a burst of 4 / 8 unrelated events handed in back to back from 1..2 goroutines while a slow trace subscriber holds every node loop up (the inboxes of the listening catch events are full): one determination, the task of the winner, completion; c06term: a gateway with 2..3 alternatives one of which is TERMINAL (its catch event has no outgoing sequence flow), every first event x every second event (or none): exactly one determination, exactly the task of the winner (none for the terminal alternative), the instance completes; c06loop: the gateway RE-ENTERED through a loop (start -> merge -> G -> C0 -> T0 -> back to the merge; G -> C1 -> T1 -> end; "
           "with 3 alternatives a second looping one): every word of 0..3 (thorough 5) looping rounds followed by the leaving "
           "alternative, with and without the other alternatives' events delivered while nobody listens; judged per "
           "activation on the recorded traces: one determination, exactly the delivered alternative's task requested, no "
